@@ -77,6 +77,38 @@ func floatLiteral() *rapid.Generator[string] {
 			sb.WriteString(rapid.SampledFrom([]string{"", "", "x", " "}).Draw(t, "junk"))
 			return sb.String()
 		}
+		if rapid.IntRange(0, 15).Draw(t, "limits") == 0 {
+			// around the limits of float64: the largest float, the smallest normal and the smallest subnormal, the last
+			// digits perturbed, the decimal point anywhere (compensated by the exponent)
+			lim := rapid.SampledFrom([]struct {
+				m string
+				e int // exponent of the first digit
+			}{{"17976931348623157", 308}, {"179769313486231570814527423731704357", 308}, {"17976931348623158", 308}, {"1797693134862315807", 308},
+				{"22250738585072014", -308}, {"2225073858507201383090232717332404", -308}, {"49406564584124654", -324}, {"24703282292062327", -324}, {"1", 308}, {"9999999999999999", 307}}).Draw(t, "lim")
+			m := []byte(lim.m)
+			if k := rapid.IntRange(-3, 3).Draw(t, "tweak"); k != 0 && len(m) > 3 {
+				// add k to the last digits (as a decimal string operation, carries kept inside the last 3 digits)
+				tail, _ := stdstrconv.Atoi(string(m[len(m)-3:]))
+				if tail+k >= 0 && tail+k <= 999 {
+					copy(m[len(m)-3:], []byte(fmt.Sprintf("%03d", tail+k)))
+				}
+			}
+			pt := rapid.IntRange(-25, len(m)+25).Draw(t, "point") // digits in front of the decimal point
+			var lit string
+			switch {
+			case pt <= 0:
+				lit = "0." + strings.Repeat("0", -pt) + string(m)
+			case pt >= len(m):
+				lit = string(m) + strings.Repeat("0", pt-len(m)) + rapid.SampledFrom([]string{"", ".", ".0"}).Draw(t, "dot")
+			default:
+				lit = string(m[:pt]) + "." + string(m[pt:])
+			}
+			sb.WriteString(lit + rapid.SampledFrom([]string{"e", "E", "e+"}).Draw(t, "e") + stdstrconv.Itoa(lim.e+1-pt))
+			if strings.HasSuffix(sb.String(), "e+"+stdstrconv.Itoa(lim.e+1-pt)) && lim.e+1-pt < 0 {
+				return strings.Replace(sb.String(), "e+-", "e-", 1)
+			}
+			return sb.String()
+		}
 		switch rapid.IntRange(0, 3).Draw(t, "form") {
 		case 0:
 			sb.WriteString(digits(1, 40).Draw(t, "int"))
@@ -253,6 +285,9 @@ func relClose(got, want, tol float64) bool {
 	return math.Abs(got-want) <= tol*math.Abs(want)
 }
 
+// a fifth of the smallest subnormal
+var underflowEdge, _, _ = big.ParseFloat("9.9e-325", 10, 128, big.ToNearestEven)
+
 func checkParseFloat(t *rapid.T, s string) (string, bool) {
 	got, n := strconv.ParseFloat([]byte(s))
 	m := floatRe.FindString(s)
@@ -286,8 +321,23 @@ func checkParseFloat(t *rapid.T, s string) (string, bool) {
 	cls := "finite"
 	if math.IsInf(want, 0) {
 		cls = "overflow"
+		// the overflow edge: a decimal value within 1e-14 relative of the largest float may be returned as that float
+		// (the statement's tolerance) or as infinity (what correct rounding gives beyond MaxFloat64 + 1/2 ulp)
+		if bf, _, err := new(big.Float).SetPrec(8192).Parse(m, 10); err == nil {
+			edge := new(big.Float).SetPrec(8192).Mul(big.NewFloat(math.MaxFloat64), big.NewFloat(1+1e-14))
+			if new(big.Float).Abs(bf).Cmp(edge) <= 0 && (got == want || got == math.Copysign(math.MaxFloat64, want)) {
+				return "overflow-edge", true
+			}
+		}
 	} else if want == 0 {
 		cls = "zero"
+		// the underflow edge, like the subnormals below: a value of at least a fifth of the smallest subnormal may
+		// come back as that subnormal (one subnormal ulp off); anything smaller must be zero
+		if bf, _, err := new(big.Float).SetPrec(8192).Parse(m, 10); err == nil && got != 0 {
+			if new(big.Float).Abs(bf).Cmp(underflowEdge) >= 0 && math.Abs(got) <= 5e-324 && math.Signbit(got) == (bf.Sign() < 0) {
+				return "underflow-edge", true
+			}
+		}
 	} else if math.Abs(want) < 2.3e-308 {
 		// subnormal results carry fewer than 53 bits: 1e-14 relative cannot be demanded of any implementation
 		// that scales in more than one step; demand closeness to within 2 subnormal ulps instead
